@@ -311,7 +311,7 @@ func (p Pkt) Body() []byte {
 		o = append(append([]byte{p.flagByte()}, be(p.TopicID)...), be(p.MsgID)...)
 		o = append(o, p.RC)
 	case DISCONNECT:
-		if p.Duration != 0 {
+		if p.Duration != 0 || p.HasDur {
 			o = be(p.Duration)
 		}
 	}
